@@ -245,6 +245,31 @@ func runC20(w *World, r *Report) {
 		r.seen(shortFn(fn))
 		noDroppedErrors(w, r, "no-dropped-error", fn)
 	}
+	// reading yields what is stored or an error: it neither makes a wallet nor writes a file
+	r.rule("read-neither-creates-nor-writes", "nothing reachable from ReadWallet / ReadFromPem creates a key pair (wallet.New, ed25519.GenerateKey) or writes, creates, renames or removes a file", 1)
+	for _, name := range []string{"ReadWallet", "ReadFromPem"} {
+		rf := w.Func("fileoperations", "Helper", name)
+		if rf == nil {
+			continue
+		}
+		bad := ""
+		for fn := range reachableFuncs(w, rf) {
+			instrsOf(fn, func(in ssa.Instruction) {
+				c, ok := in.(ssa.CallInstruction)
+				if !ok {
+					return
+				}
+				n := calleeName(c)
+				switch {
+				case n == "os.WriteFile", n == "os.Create", n == "os.Rename", n == "os.Remove", n == "os.RemoveAll", n == "os.Truncate", n == "os.OpenFile", n == "os.CreateTemp", n == "os.Mkdir", n == "os.MkdirAll",
+					strings.HasSuffix(n, "wallet.New"), n == "crypto/ed25519.GenerateKey", strings.HasSuffix(n, "Helper).SaveWallet"), strings.HasSuffix(n, "Helper).SaveToPem"):
+					bad += " " + shortFn(fn) + " calls " + shortCallee(c) + " at " + lineOf(w, c) + ";"
+				}
+			})
+		}
+		r.check(bad == "", "read-neither-creates-nor-writes", name, w.Pos(rf.Pos()), "the read path only reads", bad)
+	}
+
 	// a file that is renamed over the wallet file belongs to that wallet alone: its name is made from the whole wallet
 	// path (or is a unique temporary); a name shared by the wallets of one directory lets one wallet land in another's file
 	r.rule("scratch-file-is-per-wallet", "the source of every os.Rename in the wallet file helpers is a unique temporary file (os.CreateTemp) or a name computed from the complete destination path, never from its directory alone", 0)
